@@ -1089,6 +1089,9 @@ def _sweeps(run, thorough):
                     single_precision.append((case, 'float32-mask,threshold-within-1e-7-of-fraction'))
                     case = dict(case, dtype='float')
                 bd.check(orc_volume, case, ic, function='get_volume_searchlight')
+    for ones, n in ((7, 10), (9, 10)):     # 7 of 10 voxels inside, threshold np.float64(0.7): float32(0.7) = 0.699999988 < 0.7
+        single_precision.insert(0, (dict(shape=[1, 1, n], mask='bits', bits=[1] * ones + [0] * (n - ones), radius=50, threshold=ones / n,
+                                         dtype='float32', threshold_as='float64'), 'float32-mask,threshold-within-1e-7-of-fraction'))
     if False:  # pending triage: float32-mask,threshold-within-1e-7-of-fraction
         for case, ic in single_precision:
             bd.check(orc_volume, case, ic, function='get_volume_searchlight')
@@ -1272,10 +1275,12 @@ def _sweeps(run, thorough):
                                   n_cond=5, reps=1)],
             ['C19/volume-searchlight', dict(shape=[3, 4, 3], mask='random', seed=16, density=0.8, radius=2, threshold=0.5)],
             ['C19/evaluate-fixed', dict(seed=17, n=9, n_jobs=1, method='corr')]]
+    if not thorough:
+        jobs = [j for j in jobs if j[1].get('n_centers', 0) <= 1000]
     assert all(_spec_volume(_build_mask(j), j['radius'], j['threshold']) for _, j in jobs if 'radius' in j)
     bd = Bounded(run, 'C19/fresh-interpreter', OB_RDM,
                  'new interpreters with PYTHONHASHSEED in %s (this process runs with %s), each running %d cases of the oracles above with '
-                 'string / multi-character string / float event labels (unchunked and 1003 centres), one pipeline, one mask, one evaluation'
+                 'string / multi-character string / float event labels (unchunked; thorough also 1003 centres), one pipeline, one mask, one evaluation'
                  % (hashseeds, __import__('os').environ.get('PYTHONHASHSEED', 'unset'), len(jobs)), function='get_searchlight_RDMs')
     for hs in hashseeds:
         bd.check(orc_fresh, dict(hashseed=hs, jobs=jobs), 'new-interpreter,other-hash-seed', function='get_searchlight_RDMs')
